@@ -419,7 +419,7 @@ func init() {
 			res, _ := runTrajectory(sc, env, nil, []Oracle{o}, nil)
 			return res
 		},
-		Quick: 600, Thorough: 20000,
+		Quick: 2000, Thorough: 60000,
 		NonTrivial: func(res *Result) bool {
 			return res.Status == "ok" && res.Stats["actions.fertilisation"]+res.Stats["actions.tillage"]+res.Stats["actions.irrigation"] >= 3
 		},
